@@ -277,6 +277,220 @@ def _ancestors(n):
     return out
 
 
+def _profile_names(fn_node):
+    """Locals that stand for one of the component profile arrays (or for a
+    collection of them): bound -- by assignment, as a loop / comprehension
+    variable -- from an expression built only of `self.<component>`, such
+    locals, displays, comprehensions and `is None` filters.  `for pp in
+    [p for p in (self.pin_power, ...) if p is not None]: np.dot(pp[k], ..)`
+    evaluates the profiles just as `np.dot(self.pin_power[k], ..)` does."""
+    comps = {'self.' + a for a in COMP_ATTR.values()}
+    names = set()
+
+    def plain(e):
+        """mentions a profile and does nothing but collect / filter"""
+        hit = False
+        for x in ast.walk(e):
+            if isinstance(x, (ast.Call, ast.BinOp, ast.Subscript,
+                              ast.Lambda)):
+                return False
+            if isinstance(x, ast.Attribute) and src(x) in comps:
+                hit = True
+            elif isinstance(x, ast.Name) and x.id in names:
+                hit = True
+        return hit
+    for _ in range(6):
+        before = len(names)
+        for n in ast.walk(fn_node):
+            tg, val = None, None
+            if isinstance(n, ast.Assign) and len(n.targets) == 1:
+                tg, val = n.targets[0], n.value
+            elif isinstance(n, (ast.For, ast.comprehension)):
+                tg, val = n.target, n.iter
+            if isinstance(tg, ast.Name) and val is not None and plain(val):
+                names.add(tg.id)
+        if len(names) == before:
+            break
+    return names
+
+
+def _evaluates_profiles(fn_node):
+    """an np.dot over a row of a component profile (named directly or
+    through a local that stands for one)"""
+    comps = {'self.' + a for a in COMP_ATTR.values()}
+    names = _profile_names(fn_node)
+    for c in ast.walk(fn_node):
+        if isinstance(c, ast.Call) and call_name(c) == 'np.dot':
+            for x in ast.walk(c):
+                if isinstance(x, ast.Subscript) and (
+                        src(x.value) in comps or (
+                            isinstance(x.value, ast.Name) and
+                            x.value.id in names)):
+                    return True
+    return False
+
+
+def _presweep_arrays(ps):
+    """Source texts that denote, inside presweep_setup, the arrays the
+    per-cell midpoint total is built from -- by what they hold, not by what
+    they are called:  'dz': locals bound once to 100 * <dz parameter> (the
+    step sizes in cm);  'rel' / 'cell' / 'pos': the arrays handed to the
+    sweep through self._z_mod / self._kfint / self._z_abs -- the local that
+    is stored there (bound once) and, behind a single unconditional store,
+    the attribute itself.  -> {kind: {text: line from which on the text
+    denotes the array}}"""
+    from .. import poly
+    out = {'dz': {}, 'rel': {}, 'cell': {}, 'pos': {}}
+    dzp = ps.params[2] if len(ps.params) > 2 else None
+    names = {t.id for t, _st in U.stores(ps.node) if isinstance(t, ast.Name)}
+    for nm in sorted(names):
+        d = U.single_def(ps.node, nm)
+        if d is None or dzp is None:
+            continue
+        try:
+            v = poly.from_ast(d, {dzp: 'dz'})
+        except poly.NotPolynomial:
+            continue
+        if v.equals(poly.Rat.const(100) * poly.Rat.sym('dz')):
+            out['dz'][nm] = U.assigns_of(ps.node, nm)[0].lineno
+    for kind, attr in (('rel', 'self._z_mod'), ('cell', 'self._kfint'),
+                       ('pos', 'self._z_abs')):
+        sts = [st for t, st in U.stores(ps.node) if src(t) == attr]
+        if len(sts) != 1 or not isinstance(sts[0], ast.Assign):
+            continue
+        st = sts[0]
+        # (the attribute is never read ahead of its store, where it would
+        # still hold the array of an earlier call)
+        def stmt_line(x):
+            while x is not None and not isinstance(x, ast.stmt):
+                x = parent(x)
+            return x.lineno if x is not None else 0
+        if any(st is x for x in ps.node.body) and not any(
+                isinstance(x, ast.Attribute) and isinstance(x.ctx, ast.Load)
+                and src(x) == attr and stmt_line(x) <= st.lineno
+                for x in ast.walk(ps.node)):
+            out[kind][attr] = st.lineno
+        v = st.value
+        if isinstance(v, ast.Name) and U.single_def(ps.node, v.id) is not None:
+            out[kind][v.id] = U.assigns_of(ps.node, v.id)[0].lineno
+    return out
+
+
+def _denotes(arrays, kind, expr, line):
+    """does `expr`, read at `line`, denote the array of that kind?"""
+    return arrays[kind].get(' '.join(src(expr).split()), 10 ** 9) < line
+
+
+def _sweep_runs(repo):
+    """Every execution of get_power_sweep, by the symbolic executor of C03.R9
+    (`_f_c03._paths`: exact rational values, records, the profile evaluation
+    as an opaque result with bound arguments; undecided tests fork), over
+    (step given?) x (z given?) x the position of the step relative to the
+    bundle bounds.  -> [((step given, z given), case, run, returned value,
+    node)].  What the sweep hands to `_calculate_pdist` / returns as flat
+    power is judged on these values, not on the spelling of the call."""
+    from . import _f_c03 as F
+    gp = repo.func('power', 'AssemblyPower.get_power_sweep')
+    callee = repo.func('power', 'AssemblyPower._calculate_pdist')
+    a = gp.node.args
+    params = gp.params[1:]
+    dflt = dict(zip(params[len(params) - len(a.defaults):], a.defaults))
+    if a.vararg or a.kwarg or a.kwonlyargs or any(
+            p not in dflt or const(dflt[p], 0) is not None
+            for p in ('step', 'z')):
+        raise AnalysisError('get_power_sweep: signature')
+    out = []
+    for sg in (False, True):
+        for zg in (False, True):
+            init = {p: F.Rat.sym('<%s>' % p) for p in params}
+            init.update({'self': F.Rat.sym('self'),
+                         'step': F.Rat.sym('<step>') if sg else F.NONE,
+                         'z': F.Rat.sym('<z>') if zg else F.NONE})
+            for _cn, case in F.CASES:
+                for r, val, node in F._paths(gp, callee, init, case):
+                    out.append(((sg, zg), case, r, val, node))
+    return out
+
+
+def _sweep_factor_faults(repo):
+    """C03.R3 on values: every profile evaluation the sweep returns is
+    `_calculate_pdist(I, p, m, self._renorm[I])` -- the factor of the very
+    cell I whose profiles are evaluated, at the step position p in cm
+    (`_z_abs[i]` or 100 * z), with m the precomputed relative position of the
+    same step (`_z_mod[i]`) or None.  -> (number of evaluations, faults)"""
+    from . import _f_c03 as F
+    callee = repo.func('power', 'AssemblyPower._calculate_pdist')
+    if len(callee.params) != 5:
+        raise AnalysisError('_calculate_pdist: parameters')
+    cell_p, pos_p, rel_p, rn_p = callee.params[1:]
+    n, faults = 0, []
+    for mode, case, r, val, node in _sweep_runs(repo):
+        if not isinstance(val, F.PD):
+            continue
+        n += 1
+        idx = val.bound.get(cell_p)
+        rn = val.bound.get(rn_p)
+        if not (isinstance(idx, F.Rat) and isinstance(rn, F.Rat) and
+                rn.equals(F.Rat.sym('self._renorm[%s]' % F._key(idx)))):
+            faults.append((node, 'the renormalisation argument is %s for the '
+                           'profiles of cell %s' % (F._show(rn),
+                                                    F._show(idx))))
+        pos = val.bound.get(pos_p)
+        if not r.is_position(pos):
+            faults.append((node, 'the position argument %s is not the step '
+                           'midpoint in cm' % F._show(pos)))
+        rel = val.bound.get(rel_p)
+        ps_ = F._one_symbol(pos) or ''
+        want = None
+        if ps_.startswith(F.POSITION_TABLE):
+            want = 'self._z_mod[' + ps_[len(F.POSITION_TABLE):]
+        if not (rel is F.NONE or (want is not None and
+                                  F._one_symbol(rel) == want)):
+            faults.append((node, 'the relative position argument %s does not '
+                           'belong to the position %s' % (F._show(rel),
+                                                         F._show(pos))))
+        if val.touched:
+            faults.append((val.touched[0], 'the evaluated profiles are '
+                           'modified afterwards'))
+    return n, faults
+
+
+def _sweep_scale_faults(repo):
+    """C03.R5 on values: whatever flat power the sweep returns is exactly
+    100 * avg_power[.] (W/cm -> W/m once); a position given in metres is
+    used as 100 * z -- in the power-cell search, in the bundle test and in
+    the profile evaluation.  -> (number of flat records, faults)"""
+    from . import _f_c03 as F
+    callee = repo.func('power', 'AssemblyPower._calculate_pdist')
+    pos_p = callee.params[2]
+    zcm = F.Rat.const(100) * F.Rat.sym('<z>')
+    n, faults = 0, []
+    for (sg, zg), case, r, val, node in _sweep_runs(repo):
+        if isinstance(val, F.Rec) and 'refl' in val:
+            n += 1
+            flat = val['refl']
+            idxs = F._avg_index(flat)
+            if not (isinstance(flat, F.Rat) and len(idxs) == 1 and
+                    flat.equals(F.Rat.const(100) * F.Rat.sym(idxs[0]))):
+                faults.append((node, 'the flat power is %s'
+                               % F._show(flat)[:120]))
+        for b in r.bad_predicates:
+            faults.append((b, 'the bundle test `%s` is not made on the '
+                           'position in cm' % ' '.join(src(b).split())))
+        if zg and not sg:
+            for c in set(r.cells):
+                if c != 'self.get_kfint(%s)' % F._key(zcm):
+                    faults.append((node, 'the power cell of a position z '
+                                   'given in metres is looked up as %s' % c))
+            if isinstance(val, F.PD):
+                pos = val.bound.get(pos_p)
+                if not (isinstance(pos, F.Rat) and pos.equals(zcm)):
+                    faults.append((node, 'the profiles are evaluated at %s '
+                                   'for a position z given in metres'
+                                   % F._show(pos)))
+    return n, faults
+
+
 def r3(ctx):
     repo = ctx.repo
     cls = repo.cls('power', 'AssemblyPower')
@@ -285,10 +499,7 @@ def r3(ctx):
     for nm, m in cls.methods.items():
         if nm in ('__init__', '_calculate_pdist'):
             continue
-        evaluates = any(isinstance(c, ast.Call) and call_name(c) == 'np.dot'
-                        and any('self.%s[' % a in src(c)
-                                for a in COMP_ATTR.values())
-                        for c in ast.walk(m.node))
+        evaluates = _evaluates_profiles(m.node)
         calls = bool(U.attr_calls(m.node, '_calculate_pdist'))
         zdep = any(p in m.params for p in ('z', 'z_midpoints', 'zpts', 'step'))
         if (evaluates or calls) and zdep:
@@ -331,23 +542,43 @@ def r3(ctx):
         ok = len(loops) == 1
         sel = []
         if ok:
+            # the selections <step sizes in cm>[mask] / <relative positions
+            # stored for the sweep>[mask], possibly inside a call; the
+            # arrays are recognised by what they hold (_presweep_arrays)
+            arrays = _presweep_arrays(ps)
+            kf = src(loops[0].target)
+            kinds = []
             for a in walk_no_nested(loops[0]):
                 if not isinstance(a, ast.Assign):
                     continue
                 for x in ast.walk(a.value):
-                    # dz_abs[mask] / z_mod[mask], possibly inside a call
-                    if isinstance(x, ast.Subscript) and src(x.value) in (
-                            'dz_abs', 'z_mod') and isinstance(
-                                x.ctx, ast.Load):
+                    kind = [k for k in ('dz', 'rel') if isinstance(
+                        x, ast.Subscript) and isinstance(x.ctx, ast.Load)
+                        and _denotes(arrays, k, x.value, a.lineno)]
+                    if kind:
                         e = U.expand_locals(ps.node, x.slice, depth=1,
                                             before=a.lineno,
                                             keep=pred_names)
                         sel.append((a, e))
-            ok = len(sel) == 2 and all(
+                        kinds.append(kind[0])
+
+            def in_cell(a, e):
+                # the mask contains `<cell array of the sweep> == <loop
+                # variable>`
+                for c in ast.walk(e):
+                    if isinstance(c, ast.Compare) and len(c.ops) == 1 and \
+                            isinstance(c.ops[0], ast.Eq):
+                        l, r = c.left, c.comparators[0]
+                        for u, v in ((l, r), (r, l)):
+                            if src(u) == kf and _denotes(arrays, 'cell', v,
+                                                         a.lineno):
+                                return True
+                return False
+            ok = sorted(set(kinds)) == ['dz', 'rel'] and all(
                 any(p in {x.id for x in ast.walk(e)
                           if isinstance(x, ast.Name)} for p in pred_names)
                 or 'self.rod_zbnds' in src(e) for a, e in sel) and \
-                all('kfint == kf' in src(e) for a, e in sel)
+                all(in_cell(a, e) for a, e in sel)
         ctx.require(ok, 'C03.R3', ps, sel[0][0] if sel else ps.node,
                     'the per-cell midpoint total must be taken over the steps '
                     'of that cell that lie inside the bundle (mask = cell & '
@@ -374,11 +605,13 @@ def r3(ctx):
         stored = ' '.join(src(U.value_at(ps.node, st[0].value, st[0].lineno,
                                          keep=('expected', 'total'))).split())
     gp = repo.func('power', 'AssemblyPower.get_power_sweep')
-    use = find_all('self._calculate_pdist(kf, z, z_mod, self._renorm[kf])',
-                   gp.node)
-    ctx.require(bool(st) and bool(use), 'C03.R3', gp,
-                use[0][0] if use else gp.node,
-                'the sweep must apply the factor of the current power cell',
+    # decided on the values the sweep hands to the profile evaluation on
+    # each of its executions (not on the spelling of the call)
+    n_use, faults = _sweep_factor_faults(repo)
+    ctx.require(bool(st) and n_use > 0 and not faults, 'C03.R3', gp,
+                faults[0][0] if faults else gp.node,
+                'the sweep must apply the factor of the current power cell'
+                + (' (%s)' % faults[0][1] if faults else ''),
                 key=gp.full + ' | renorm applied')
     # division guarded against empty cells
     dv = stored == ('np.divide(expected, total, out=np.ones_like(expected), '
@@ -517,10 +750,18 @@ def r5(ctx):
         fi = repo.func('power', q)
         h = find_all('self.avg_power[kf] * 100', fi.node)
         hz = find_all('z = z * 100', fi.node, 'stmt')
-        ctx.require(len(h) == 1 and len(hz) == 1, 'C03.R5', fi,
+        ok, why = len(h) == 1 and len(hz) == 1, ''
+        if q.endswith('_sweep'):
+            # the sweep is decided on the values of its executions: the
+            # returned flat power and the position used for a given z
+            n_flat, faults = _sweep_scale_faults(repo)
+            ok = n_flat > 0 and not faults
+            why = ' (%s)' % faults[0][1] if faults else ''
+            h = [(faults[0][0],)] if faults else h
+        ctx.require(ok, 'C03.R5', fi,
                     h[0][0] if h else fi.node,
-                    'flat average power converted W/cm -> W/m once; z m->cm',
-                    key=fi.full + ' | scale')
+                    'flat average power converted W/cm -> W/m once; z m->cm'
+                    + why, key=fi.full + ' | scale')
     ps = repo.func('power', 'AssemblyPower.presweep_setup')
     h = find_all('z_abs = np.around(z_midpoints * 100, 12)', ps.node, 'stmt')
     h2 = find_all('dz_abs = dz * 100', ps.node, 'stmt')
@@ -566,7 +807,22 @@ def _counter_paths(fn, step, z):
         if isinstance(e, ast.Subscript) and src(e.value) in [
                 'self.' + t for t in _TABLES]:
             return ('tab', e.value.attr, value(e.slice, st_))
+        if is_flag(e):
+            # a flag: the truth value of a test on the entry mode, decided
+            # where it is computed (`use_counter = step is None and z is
+            # None`)
+            v = truth(e, st_)
+            return None if v is None else ('bool', v)
         return None
+
+    def is_flag(e):
+        """an expression that always yields a genuine bool: a comparison, a
+        negation, or an and / or of such (an and / or of other operands
+        yields one of the operands)"""
+        if isinstance(e, ast.BoolOp):
+            return all(is_flag(x) for x in e.values)
+        return isinstance(e, ast.Compare) or (
+            isinstance(e, ast.UnaryOp) and isinstance(e.op, ast.Not))
 
     def note_reads(e, st_, stmt):
         for x in ast.walk(e):
@@ -600,6 +856,9 @@ def _counter_paths(fn, step, z):
             return res if isinstance(e.ops[0], ast.Is) else not res
         if isinstance(e, ast.Name) and st_['env'].get(e.id) == NONE:
             return False
+        if isinstance(e, ast.Name) and (st_['env'].get(e.id) or ())[:1] == (
+                'bool',):
+            return st_['env'][e.id][1]
         return None
 
     def fork(st_):
